@@ -50,6 +50,30 @@ fn check_output_option(sub: &str, args: &[&str], plain: &Run, out: &str, tree_ou
     let _ = std::fs::remove_file(out);
 }
 
+/// `-o` naming the INPUT file itself (an in-place transform): the file afterwards holds what the plain run printed
+fn check_in_place(sub: &str, args_before_file: &[&str], file: &str, args_after_file: &[&str], plain: &Run, ctx: &str, rep: &mut Report) {
+    if plain.code != Some(0) {
+        return;
+    }
+    let copy = format!("{file}.inplace.nwk");
+    if std::fs::copy(file, &copy).is_err() {
+        return;
+    }
+    let mut a: Vec<&str> = args_before_file.to_vec();
+    a.push(&copy);
+    a.extend_from_slice(args_after_file);
+    a.push("-o");
+    a.push(&copy);
+    let r2 = run_cli(&a);
+    let content = std::fs::read_to_string(&copy).unwrap_or_else(|_| "<unreadable>".into());
+    let want = plain.stdout.strip_suffix('\n').unwrap_or(&plain.stdout).to_string();
+    rep.count(&format!("in-place-output:{sub}"));
+    if r2.code != Some(0) || content != want {
+        rep.oracle("output-option", &format!("{sub}:in-place"), &format!("{ctx} -o <the input file itself>"), &format!("exit {:?} file {:?} expected {:?}", r2.code, content.chars().take(300).collect::<String>(), want.chars().take(300).collect::<String>()));
+    }
+    let _ = std::fs::remove_file(&copy);
+}
+
 fn tmp(dir: &str, k: &mut usize, text: &str) -> String {
     *k += 1;
     let p = format!("{dir}/t{}.nwk", *k);
@@ -126,6 +150,61 @@ struct Pend {
     expect_line: Option<String>,
 }
 
+/// `phylotree generate`: the trees the command prints (or writes, one file per tree with -n/-o) satisfy what the generators promise
+/// (this is the UNGUARDED binary: thread_rng(), not the seeded hook).  Used by C18 and by C17.
+pub fn generate_stream(dir: &str, rng: &mut Rng, count: usize, rep: &mut Report) {
+    // ---- `generate`: the trees the command prints (or writes, one file per tree with -n/-o) satisfy what the generators promise
+    // (this is the UNGUARDED binary: thread_rng(), not the seeded hook) ----
+    for gi in 0..count {
+        let n = rng.range(2, 40);
+        let shape = ["yule", "ete3", "caterpillar"][gi % 3];
+        let distr = ["uniform", "exponential", "gamma"][(gi / 3) % 3];
+        let brlens = gi % 2 == 0;
+        let multi = gi % 6 == 5;
+        let mut args: Vec<String> = vec!["generate".into(), "-t".into(), n.to_string(), "-s".into(), shape.into(), "-d".into(), distr.into()];
+        if brlens {
+            args.push("-b".into());
+        }
+        let out_dir = format!("{dir}/gen{gi}");
+        if multi {
+            args.extend(["-n".to_string(), "3".to_string(), "-o".to_string(), out_dir.clone()]);
+        }
+        let a: Vec<&str> = args.iter().map(|x| x.as_str()).collect();
+        let r = run_cli(&a);
+        rep.count("runs:generate");
+        let ctx = format!("phylotree {}", args.join(" "));
+        rep.case(&ctx, true);
+        let texts: Vec<String> = if multi {
+            (1..=3).map(|i| std::fs::read_to_string(format!("{out_dir}/{i}_{n}_tips.nwk")).unwrap_or_else(|_| "<missing>".into())).collect()
+        } else {
+            vec![r.stdout.clone()]
+        };
+        if r.code != Some(0) {
+            rep.oracle("generate", "error-exit", &ctx, &format!("exit {:?} {}", r.code, r.stdout));
+            continue;
+        }
+        for text in texts {
+            match Tree::from_newick(text.trim_end()) {
+                Err(_) => rep.oracle("generate", "output-not-parseable", &ctx, &text),
+                Ok(g) => {
+                    let slots = slots_of(&g);
+                    let tips: Vec<&phylotree::verif::RawSlot> = slots.iter().filter(|s| s.children.is_empty()).collect();
+                    let mut names: Vec<String> = tips.iter().filter_map(|s| s.name.clone()).collect();
+                    names.sort();
+                    names.dedup();
+                    let lens_ok = slots.iter().all(|s| s.parent.is_none() || (s.parent_edge.is_some() == brlens && s.parent_edge.map_or(true, |l| l >= 0.0 && l.is_finite() && (distr != "uniform" || (0.002..1.0).contains(&l)))));
+                    let ok = slots.len() == 2 * n - 1 && tips.len() == n && names.len() == n && g.is_binary().unwrap_or(false) && g.is_rooted().unwrap_or(false) && lens_ok
+                        && (shape != "caterpillar" || g.colless().ok() == Some((n - 1) * (n - 2) / 2));
+                    if !ok {
+                        rep.oracle("generate", "not-a-valid-tree-of-the-requested-size", &ctx, &text);
+                    }
+                }
+            }
+        }
+        let _ = std::fs::remove_dir_all(&out_dir);
+    }
+}
+
 pub fn run(thorough: bool, seed: u64, driver: &str, rep: &mut Report) {
     if !std::path::Path::new(&bin()).exists() {
         rep.mismatch("c18.cli", "binary-missing", "", "", &format!("{} was not built", bin()));
@@ -198,7 +277,10 @@ pub fn run(thorough: bool, seed: u64, driver: &str, rep: &mut Report) {
             let text = t.newick();
             // input files are named the way people name them: inner dots, other or no extensions, the same stem twice
             k += 1;
-            let fname = match (round + files.len()) % 5 {
+            let fname = match (round + files.len()) % 7 {
+                // characters a path may legally hold: the file-name column is the escaped (`{:?}`) form of the path
+                5 => format!("{dir}/odd \"q\" \\b{k}.nwk"),
+                6 => format!("{dir}/tab\tin name{k}.nwk"),
                 0 => format!("{dir}/gene.v{k}.nwk"),
                 1 => format!("{dir}/gene.v{k}.tre"),
                 2 => format!("{dir}/sample{k}"),
@@ -254,56 +336,7 @@ pub fn run(thorough: bool, seed: u64, driver: &str, rep: &mut Report) {
         let _ = std::fs::remove_dir_all(&out_dir);
         for f in files.iter() { let _ = std::fs::remove_file(f); }
     }
-    // ---- `generate`: the trees the command prints (or writes, one file per tree with -n/-o) satisfy what the generators promise
-    // (this is the UNGUARDED binary: thread_rng(), not the seeded hook) ----
-    for gi in 0..(if thorough { 120 } else { 18 }) {
-        let n = rng.range(2, 40);
-        let shape = ["yule", "ete3", "caterpillar"][gi % 3];
-        let distr = ["uniform", "exponential", "gamma"][(gi / 3) % 3];
-        let brlens = gi % 2 == 0;
-        let multi = gi % 6 == 5;
-        let mut args: Vec<String> = vec!["generate".into(), "-t".into(), n.to_string(), "-s".into(), shape.into(), "-d".into(), distr.into()];
-        if brlens {
-            args.push("-b".into());
-        }
-        let out_dir = format!("{dir}/gen{gi}");
-        if multi {
-            args.extend(["-n".to_string(), "3".to_string(), "-o".to_string(), out_dir.clone()]);
-        }
-        let a: Vec<&str> = args.iter().map(|x| x.as_str()).collect();
-        let r = run_cli(&a);
-        rep.count("runs:generate");
-        let ctx = format!("phylotree {}", args.join(" "));
-        rep.case(&ctx, true);
-        let texts: Vec<String> = if multi {
-            (1..=3).map(|i| std::fs::read_to_string(format!("{out_dir}/{i}_{n}_tips.nwk")).unwrap_or_else(|_| "<missing>".into())).collect()
-        } else {
-            vec![r.stdout.clone()]
-        };
-        if r.code != Some(0) {
-            rep.oracle("generate", "error-exit", &ctx, &format!("exit {:?} {}", r.code, r.stdout));
-            continue;
-        }
-        for text in texts {
-            match Tree::from_newick(text.trim_end()) {
-                Err(_) => rep.oracle("generate", "output-not-parseable", &ctx, &text),
-                Ok(g) => {
-                    let slots = slots_of(&g);
-                    let tips: Vec<&phylotree::verif::RawSlot> = slots.iter().filter(|s| s.children.is_empty()).collect();
-                    let mut names: Vec<String> = tips.iter().filter_map(|s| s.name.clone()).collect();
-                    names.sort();
-                    names.dedup();
-                    let lens_ok = slots.iter().all(|s| s.parent.is_none() || (s.parent_edge.is_some() == brlens && s.parent_edge.map_or(true, |l| l >= 0.0 && l.is_finite() && (distr != "uniform" || (0.002..1.0).contains(&l)))));
-                    let ok = slots.len() == 2 * n - 1 && tips.len() == n && names.len() == n && g.is_binary().unwrap_or(false) && g.is_rooted().unwrap_or(false) && lens_ok
-                        && (shape != "caterpillar" || g.colless().ok() == Some((n - 1) * (n - 2) / 2));
-                    if !ok {
-                        rep.oracle("generate", "not-a-valid-tree-of-the-requested-size", &ctx, &text);
-                    }
-                }
-            }
-        }
-        let _ = std::fs::remove_dir_all(&out_dir);
-    }
+    generate_stream(&dir, &mut rng, if thorough { 120 } else { 18 }, rep);
     let n_trees = if thorough { 600 } else { 60 };
     for ti in 0..n_trees {
         let size = rng.range(2, 30);
@@ -421,6 +454,13 @@ pub fn run(thorough: bool, seed: u64, driver: &str, rep: &mut Report) {
             let mut picks: Vec<String> = leaves.clone();
             rng.shuffle(&mut picks);
             picks.truncate(3);
+            // a tip named twice is two arguments: every pair of ARGUMENT positions gets its row (a tip with itself reads 0)
+            if ti % 6 == 3 && picks.len() >= 2 {
+                let again = picks[0].clone();
+                let at = rng.range(1, picks.len());
+                picks.insert(at, again);
+                rep.count("distance:a-tip-named-twice");
+            }
             let mut args = vec!["distance", file.as_str()];
             for p in picks.iter() {
                 args.push(p);
@@ -434,6 +474,10 @@ pub fn run(thorough: bool, seed: u64, driver: &str, rep: &mut Report) {
             for i in 0..picks.len() {
                 for j in i + 1..picks.len() {
                     let key = if picks[i] <= picks[j] { (picks[i].clone(), picks[j].clone()) } else { (picks[j].clone(), picks[i].clone()) };
+                    if picks[i] == picks[j] {
+                        want.push_str(&format!("{}\t{}\t0\n", picks[i], picks[j]));
+                        continue;
+                    }
                     match dists.get(&key) {
                         Some(Some(d)) => want.push_str(&format!("{}\t{}\t{d}\n", picks[i], picks[j])),
                         _ => expect_fail = true,
@@ -474,6 +518,21 @@ pub fn run(thorough: bool, seed: u64, driver: &str, rep: &mut Report) {
                 let x = Rose { name: a.name.clone(), len: Some(0.0), comment: None, kids: rest };
                 cands.push(Rose { name: t.name.clone(), len: None, comment: None, kids: vec![a.kids[0].clone(), x] });
                 rep.count("compare:rerooted-copy-of-the-reference");
+            }
+            // a compared tree on ANOTHER leaf set (one tip renamed) has no splits in common with the reference in any meaningful
+            // sense: the tool must not print a row of counts for it and report success
+            if ti % 4 == 0 {
+                let mut alien = other.clone();
+                let mut done = false;
+                alien.for_each_mut(&mut |x, _, _| if x.kids.is_empty() && !done { x.name = Some("zz_not_in_the_reference".into()); done = true; }, true, 0);
+                let f3 = tmp(&dir, &mut k, &alien.newick());
+                let r = run_cli(&["compare", &file, &f3]);
+                rep.count("compare:different-leaf-set");
+                let rows: Vec<&str> = r.stdout.lines().skip(1).filter(|l| !l.trim().is_empty()).collect();
+                if r.code == Some(0) && !rows.is_empty() {
+                    rep.oracle("compare", "row-printed-for-a-tree-on-another-leaf-set", &format!("{ctx0}\ncompared file: {}\nphylotree compare REF CMP", alien.newick()), &r.stdout);
+                }
+                let _ = std::fs::remove_file(&f3);
             }
             for o2 in cands {
             if rose_leafset(&o2) == rose_leafset(&t) && o2.leaf_names().iter().all(|n| n.is_some()) {
@@ -524,6 +583,10 @@ pub fn run(thorough: bool, seed: u64, driver: &str, rep: &mut Report) {
             rep.count("runs:collapse");
             let ctx = format!("{ctx0}\nphylotree collapse FILE {thr}{}", if excl { " -e" } else { "" });
             check_output_option("collapse", &a, &r, &format!("{dir}/o{k}.nwk"), true, &ctx, rep);
+            if ti % 3 == 0 {
+                let after: Vec<&str> = a[2..].to_vec();
+                check_in_place("collapse", &["collapse"], &file, &after, &r, &ctx, rep);
+            }
             let got = if r.code == Some(0) { rose_of_text(&r.stdout) } else { None };
             // contract: topology, names, comments unchanged; a length becomes 0 iff it was below the threshold
             // (and the node is not an excluded tip), else it is unchanged
@@ -582,6 +645,9 @@ pub fn run(thorough: bool, seed: u64, driver: &str, rep: &mut Report) {
             rep.count("runs:rescale");
             let ctx = format!("{ctx0}\nphylotree rescale {kf} FILE");
             check_output_option("rescale", &["rescale", &format!("{kf}"), &file], &r, &format!("{dir}/o{k}.nwk"), true, &ctx, rep);
+            if ti % 3 == 2 {
+                check_in_place("rescale", &["rescale", &format!("{kf}")], &file, &[], &r, &ctx, rep);
+            }
             let mut want = t.clone();
             want.for_each_mut(&mut |x, _, _| x.len = x.len.map(|l| l * kf as f64), true, 0);
             let got = if r.code == Some(0) { rose_of_text(&r.stdout) } else { None };
